@@ -84,6 +84,8 @@ class Lits(object):
             return "(EBin %s %s %s)" % (OPCOQ[op], self.expr(l), self.expr(r))
         if k == "not":
             return "(ENot %s)" % self.expr(e[1])
+        if k == "dynref":
+            return "(dyn_ref %s)" % self.dyn_block(e[1], e[2])
         if k in ("in", "notin"):
             items = []
             for it in reversed(e[2]):          # rangelist stores its arguments last to first
@@ -104,10 +106,51 @@ class Lits(object):
         if prefix is not None:
             old, self.prefix = self.prefix, tuple(prefix)
             try:
-                return clist([self.stmt(s) for s in l])
+                return self.stmt_list(l)
             finally:
                 self.prefix = old
-        return clist([self.stmt(s) for s in l])
+        return self.stmt_list(l)
+
+    def stmt_list(self, l):
+        """a Coq expression of type list stmt; a dynamic-constraint reference used as a statement expands in place (Rand/Dyn.v)"""
+        if not any(s[0] == "dyn" for s in l):
+            return clist([self.stmt(s) for s in l])
+        parts, run, seen = [], [], set()
+        for s in l:
+            if s[0] == "dyn":
+                if run:
+                    parts.append(clist(run))
+                    run = []
+                # the block's statement objects reach a rand set once, however often the block is referenced as a statement
+                key = (self.prefix + tuple(s[1]), s[2])
+                if key in seen:
+                    continue
+                seen.add(key)
+                parts.append("(dyn_stmt %s)" % self.dyn_block(s[1], s[2]))
+            else:
+                run.append(self.stmt(s))
+        if run:
+            parts.append(clist(run))
+        if not parts:
+            return "[]"
+        return parts[0] if len(parts) == 1 else "(" + " ++ ".join(parts) + ")"
+
+    def dyn_block(self, path, name):
+        """the expressions of dynamic block `name` of the object at `path` (relative to the current object), over that object's leaves"""
+        cname = self.root_cls
+        full = self.prefix + tuple(path)
+        for n in full:
+            cname = next(f for f in all_fields(self.sc, cname) if f["name"] == n)["cls"]
+        b = next(b for b in all_blocks(self.sc, cname) if b["name"] == name and b.get("dynamic"))
+        old, self.prefix = self.prefix, full
+        try:
+            out = []
+            for st in b["stmts"]:
+                assert st[0] == "expr", "dynamic blocks hold expression statements only"
+                out.append(self.expr(st[1]))
+            return clist(out)
+        finally:
+            self.prefix = old
 
     def stmt(self, s):
         k = s[0]
@@ -174,7 +217,8 @@ class Lits(object):
 def term_lit(t):
     k = t[0]
     if k == "fvar":
-        return "(BVar %d%%nat %s)" % (t[1], cz(t[2]))
+        # -1: the variable of a field that does not belong to the object being randomized (never matches the model's terms)
+        return "(BVar %d%%nat %s)" % (t[1] if t[1] >= 0 else 999999, cz(t[2]))
     if k == "fconst":
         return "(BConst %s %s)" % (cz(t[2]), cz(t[3]))
     if k == "const":
